@@ -7,9 +7,12 @@
    hist (Model/PickleHistory.v): route :: kind (1 dt | 3 time | 6 tz) :: n :: n history calls :: value body as in the entry `kind` :: m :: m later calls;
            a call: 1 :: off  pendulum.timezone(off) | 2 :: key  pendulum.timezone("<key>") | 3 :: tzspec  constructed directly | 4 :: route :: tzspec  copied
            | 5  another value copied (no output);  result 0 :: length-prefixed segments: one per history call, the original, the copy, one per later call.
+   native endpoint (entry ivn, Model/PickleNative.v): 2 :: W :: fold :: tzspec  a standard-library datetime.datetime | 3 :: ordinal  a datetime.date; 0 / 1 as above.
+   ivn: route :: utc_key :: pre :: absolute :: endpoint :: endpoint   (pre = 1: native operands converted by DateTime.instance BEFORE Interval is called: b - a, a.diff(b))
+   dti: route :: utc_key :: W :: fold :: tzspec   pendulum.instance(datetime.datetime(fields, tzinfo=tzspec, fold=fold)), then copied.
    Results: 0 :: observation, [1; exn code], [9] bad call. *)
 From Coq Require Import ZArith List Bool String.
-From PV Require Import Lib.PyBase Spec.Cal Spec.Zone Spec.TdFloat Model.Duration Model.TzDispatch Gen.Reduce Model.Pickle Model.PickleHistory.
+From PV Require Import Lib.PyBase Spec.Cal Spec.Zone Spec.TdFloat Model.Duration Model.TzDispatch Gen.Reduce Model.Pickle Model.PickleHistory Model.PickleNative.
 Import ListNotations.
 Open Scope Z_scope.
 
@@ -36,6 +39,18 @@ Definition parse_ep (l : list Z) : option (ep * option (Z * zone) * list Z) :=
       end
   | _ => None
   end.
+
+(* an endpoint that may be a standard-library value: (is_native, endpoint) *)
+Definition parse_nep (l : list Z) : option ((bool * ep) * option (Z * zone) * list Z) :=
+  match l with
+  | 2 :: r => match parse_ep (1 :: r) with Some (e, z, rest) => Some ((true, e), z, rest) | None => None end
+  | 3 :: r => match parse_ep (0 :: r) with Some (e, z, rest) => Some ((true, e), z, rest) | None => None end
+  | _ => match parse_ep l with Some (e, z, rest) => Some ((false, e), z, rest) | None => None end
+  end.
+(* the tz database of one call: the windows that came with the endpoints; any other key (UTC) is the zone without transitions *)
+Definition zdb_of (z1 z2 : option (Z * zone)) (k : Z) : zone :=
+  let second := match z2 with Some (k2, w2) => if k =? k2 then w2 else fixed_zone 0 | None => fixed_zone 0 end in
+  match z1 with Some (k1, w1) => if k =? k1 then w1 else second | None => second end.
 
 Definition parse_op (l : list Z) : option (hop * list Z) :=
   match l with
@@ -127,6 +142,24 @@ Definition dispatch (fn : Z) (args : list Z) : list Z :=
           | _ => [9]
           end
       | None => [9]
+      end
+  | 9 (* ivn *), r :: utc :: pre :: a :: eps =>
+      match parse_nep eps with
+      | Some (e1, z1, rest) =>
+          match parse_nep rest with
+          | Some (e2, z2, []) =>
+              let zdb := zdb_of z1 z2 in
+              out (iv_obs zdb) (bind (interval_new_native zdb utc (zb pre) e1 e2 (zb a)) (fun x => if r =? 8 then Ok x else iv_rebuild zdb (route_of r) x))
+          | _ => [9]
+          end
+      | None => [9]
+      end
+  | 10 (* dti *), r :: utc :: W :: f :: tzs =>
+      match parse_tz tzs with
+      | Some (t, z, []) =>
+          let zdb := zdb_of (match t with TzNamed k | TzForeign (StdZone k) => Some (k, z) | _ => None end) None in
+          out (dt_obs zdb) (bind (dt_instance zdb utc (mkdt W (zb f) t)) (fun v => if r =? 8 then Ok v else dt_rebuild (route_of r) v))
+      | _ => [9]
       end
   | _, _ => [9]
   end.
